@@ -29,6 +29,9 @@ Definition run_jitter (P tol : Q) (ts : list Q) : nat * (nat * nat) :=
 Definition run_supported (k : nat) (p : zformula) : bool :=
   supported (match k with O => DiscOff | S O => DiscOn | S (S O) => DenseOff | _ => DenseOn end) p.
 
+Definition run_supported_pastified (k : nat) (p q : zformula) : bool :=
+  supported_pastified (match k with O => DiscOff | S O => DiscOn | S (S O) => DenseOff | _ => DenseOn end) p q.
+
 Definition run_parse := parse_outcome.
 Definition run_lex := lex_string.
 
